@@ -394,6 +394,62 @@ def label_cases(rng):
         out.append((codec, E.update([], [E.attr(0x80, 15, E.mp_unreach_value(fam, [nl]))], []).d))
     return out
 
+def sweep_cases(rng):
+    """Deterministic sweeps aimed at the comparisons of the model: every known attribute code
+    with every small value length; prefix-length octets around the family's maximum."""
+    out = []
+    c4 = {'ext': False, 'two': False, 'nh': False, 'fams': [(E.IPV4, False), (E.IPV6, False)]}
+    c2 = {'ext': False, 'two': True, 'nh': False, 'fams': [(E.IPV4, False), (E.IPV6, False)]}
+    flags_of = {1: 0x40, 2: 0x40, 3: 0x40, 4: 0x80, 5: 0x40, 6: 0x40, 7: 0xc0, 8: 0xc0, 9: 0x80, 10: 0x80,
+                16: 0xc0, 17: 0xc0, 18: 0xc0, 32: 0xc0, 26: 0x80, 40: 0xc0, 29: 0x80, 23: 0xc0}
+    for code, fl in flags_of.items():
+        for n in list(range(0, 14)) + [16, 20, 24, 36]:
+            for codec in (c4, c2):
+                if code in (2, 17):
+                    # segment-shaped values of that length
+                    v = [2, max(0, (n - 2) // (2 if (codec['two'] and code == 2) else 4))] + rbytes(rng, max(0, n - 2)) if n >= 2 else rbytes(rng, n)
+                    v = v[:n]
+                else:
+                    v = rbytes(rng, n)
+                    if code == 1 and n >= 1: v[0] = rng.choice([0, 1, 2, 3])
+                attrs = []
+                if code != 1: attrs.append(E.attr(0x40, 1, [0]))
+                if code != 2: attrs.append(E.attr(0x40, 2, []))
+                if code != 3: attrs.append(E.attr(0x40, 3, [192, 0, 2, 1]))
+                attrs.append(E.attr(fl, code, v))
+                out.append((codec, E.update([], attrs, [E.prefix(24, [10, 0, 0])]).d))
+    # prefix-length octets around the maximum, reach and unreach, with and without add-path
+    for fam in E.MODELLED:
+        maxbits = 32 if fam >> 16 == 1 else 128
+        safi = fam & 0xff
+        for bits in (0, 1, maxbits - 1, maxbits, maxbits + 1, maxbits + 7, maxbits + 8, maxbits + 9):
+            for ap, reach, ablen in [(a, r, l) for a in (False, True) for r in (True, False)
+                                     for l in sorted(set([(bits + 7) // 8, min((bits + 7) // 8, maxbits // 8), (bits + 7) // 8 + 2]))]:
+                if True:
+                    ab = rbytes(rng, ablen)
+                    if safi in (1, 2): nl = B([bits & 0xff] + ab)
+                    elif safi == 4: nl = B([(24 + bits) & 0xff] + E.label(100, True) + ab)
+                    else: nl = B([(88 + bits) & 0xff] + E.label(100, True) + [0, 0, 0, 1, 0, 0, 0, 1] + ab)
+                    if 24 + bits > 255 and safi == 4: continue
+                    if 88 + bits > 255 and safi == 128: continue
+                    if ap: nl = E.with_path_id(9, nl)
+                    codec = {'ext': False, 'two': False, 'nh': False, 'fams': [(E.IPV4, ap), (fam, ap)]}
+                    if fam == E.IPV4:
+                        d = (E.update([], [E.attr(0x40, 1, [0]), E.attr(0x40, 2, []), E.attr(0x40, 3, [1, 1, 1, 1])], [nl]) if reach
+                             else E.update([nl], [], [])).d
+                    else:
+                        nh = [0] * 8 + [1, 1, 1, 1] if safi == 128 else [1, 1, 1, 1]
+                        a = E.attr(0x80, 14, E.mp_reach_value(fam, nh, [nl])) if reach else E.attr(0x80, 15, E.mp_unreach_value(fam, [nl]))
+                        d = E.update([], [E.attr(0x40, 1, [0]), E.attr(0x40, 2, []), a], []).d
+                    out.append((codec, d))
+    # MP_REACH next-hop lengths
+    for fam in (E.IPV6, E.IPV4_VPN, E.IPV6_VPN, E.IPV4_MPLS):
+        for nhl in (0, 1, 3, 4, 5, 8, 11, 12, 13, 15, 16, 17, 23, 24, 25, 31, 32, 33, 48):
+            codec = {'ext': False, 'two': False, 'nh': False, 'fams': [(fam, False)]}
+            nl = rand_nlri(rng, fam, False)
+            out.append((codec, E.update([], [E.attr(0x40, 1, [0]), E.attr(0x40, 2, []), E.attr(0x80, 14, E.mp_reach_value(fam, rbytes(rng, nhl), [nl]))], []).d))
+    return out
+
 def gen_bgp(rng, n, tier):
     out = []
     def add(codec, chunks): out.append({'k': 'bgp', 'codec': codec, 'chunks': chunks})
@@ -443,6 +499,9 @@ def gen_bgp(rng, n, tier):
                 add(codec, [E.set_len(b, mk, v & top).d])
     # ---- label stacks
     for codec, d in label_cases(rng):
+        add(codec, [d])
+    # ---- attribute-length, prefix-length and next-hop-length sweeps
+    for codec, d in sweep_cases(rng):
         add(codec, [d])
     # ---- every codec of the cross product on one valid and one mutated message
     for codec in all_codecs():
